@@ -224,4 +224,82 @@ theorem ideals_witnesses :
   refine ⟨by decide +kernel, by decide +kernel, by decide +kernel, by decide +kernel, by decide +kernel,
     by decide +kernel, by decide +kernel, by decide +kernel, by decide +kernel⟩
 
+/-! ### univariate `NewIdeal` at the step level (`stepU (.uCtor dst ring "ideal" arg)`) -/
+
+section uideal
+variable {α : Type} (env : Env α)
+
+/-- the generator registers named by the argument of the `ideal` constructor -/
+def idealGens (s : St α) (arg : String) : List (UReg α) :=
+  (if arg == "-" then [] else arg.splitOn ",").map fun t => uGet env s ((t.drop 1).toString.toNat!)
+
+/-- `r.NewIdeal(gens...)`: the reply, case by case -/
+theorem stepU_ideal (s : St α) (dst ring : Nat) (arg : String) :
+    stepU env s (.uCtor dst ring "ideal" arg) =
+      (let R := uring env ring
+       let gens := idealGens env s arg
+       if gens.isEmpty then some (s, "err InputValue")
+       else if gens.any (·.home ≠ ring) then some (s, "err InputIncompatible")
+       else match UPoly.newIdeal R.F (gens.map (·.val)) with
+         | none => some (s, "fuel-exhausted")
+         | some g =>
+           if UPoly.isZero R.F g then some (s, "err InputValue")
+           else
+             let r : UReg α := { home := ring, val := g }
+             some ({ s with us := St.setL s.us dst r }, "ok " ++ showU env r)) := by
+  simp only [stepU, idealGens, show ("ideal" == "coefs") = false by decide,
+    show ("ideal" == "nats") = false by decide, show ("ideal" == "ints") = false by decide,
+    show ("ideal" == "zero") = false by decide, show ("ideal" == "one") = false by decide,
+    show ("ideal" == "regs") = false by decide, show ("ideal" == "ideal") = true by decide,
+    Bool.false_eq_true, if_false, if_true]
+  rfl
+
+/-- sound: the error replies of univariate `NewIdeal` are InputValue and InputIncompatible -/
+theorem uIdeal_reply_sound (s : St α) (dst ring : Nat) (arg : String) :
+    ∃ r, stepU env s (.uCtor dst ring "ideal" arg) = some r ∧
+      ((∃ kd : Kind, r.2 = "err " ++ kd.name ∧
+          kd.name ∈ kindsOf Gen.errClosed "univariate.QuotientRing.NewIdeal") ∨
+       r.2 = "fuel-exhausted" ∨ ∃ reg : UReg α, r.2 = "ok " ++ showU env reg) := by
+  have hv : ∃ kd : Kind, "err InputValue" = "err " ++ kd.name ∧
+      kd.name ∈ kindsOf Gen.errClosed "univariate.QuotientRing.NewIdeal" :=
+    ⟨.inputValue, errReply_names.1.symm, closed_univariate_NewIdeal2 _ (by kind_mem)⟩
+  have hi : ∃ kd : Kind, "err InputIncompatible" = "err " ++ kd.name ∧
+      kd.name ∈ kindsOf Gen.errClosed "univariate.QuotientRing.NewIdeal" :=
+    ⟨.inputIncompatible, errReply_names.2.1.symm, closed_univariate_NewIdeal2 _ (by kind_mem)⟩
+  rw [stepU_ideal]
+  simp only
+  repeat' split
+  · exact ⟨_, rfl, .inl hv⟩
+  · exact ⟨_, rfl, .inl hi⟩
+  · exact ⟨_, rfl, .inr (.inl rfl)⟩
+  · exact ⟨_, rfl, .inl hv⟩
+  · exact ⟨_, rfl, .inr (.inr ⟨_, rfl⟩)⟩
+
+/-- a generator of another ring: InputIncompatible -/
+theorem uIdeal_incompatible (s : St α) (dst ring : Nat) (arg : String)
+    (hne : (idealGens env s arg).isEmpty = false)
+    (hall : ∀ k, (uGet env s k).home ≠ ring) :
+    stepU env s (.uCtor dst ring "ideal" arg) = some (s, "err " ++ Kind.inputIncompatible.name) := by
+  rw [stepU_ideal, errReply_names.2.1]
+  simp only [hne, Bool.false_eq_true, if_false]
+  have hany : (idealGens env s arg).any (fun x => decide (x.home ≠ ring)) = true := by
+    cases hg : idealGens env s arg with
+    | nil => rw [hg] at hne; simp at hne
+    | cons x t =>
+      have hx : x ∈ idealGens env s arg := by rw [hg]; simp
+      unfold idealGens at hx
+      obtain ⟨t', _, rfl⟩ := List.mem_map.1 hx
+      simp [hall]
+  rw [if_pos hany]
+
+end uideal
+
+/-- (2) witness: `ring1.NewIdeal(p0)` where (in the empty store) p0 is a polynomial of ring 0 -/
+theorem uIdeal_incompatible_witness :
+    kindsOf Gen.errDirect "univariate.QuotientRing.NewIdeal" = ["InputValue", "InputIncompatible"] ∧
+    stepU env5 {} (.uCtor 5 1 "ideal" "p0") = some ({}, "err " ++ Kind.inputIncompatible.name) := by
+  refine ⟨direct_univariate_NewIdeal, uIdeal_incompatible env5 {} 5 1 "p0" ?_ (fun k => by show (0 : Nat) ≠ 1; decide)⟩
+  have hs : "p0".splitOn "," = ["p0"] := C04.splitOn_of_not_infix "p0" "," (by decide)
+  simp [idealGens, hs]
+
 end Algobra.ErrTies
